@@ -15,6 +15,7 @@ import (
 	"sync"
 	"sync/atomic"
 	"time"
+	"unicode"
 	"unicode/utf8"
 
 	"github.com/creack/pty"
@@ -214,7 +215,7 @@ func blankCells(w int) []cell {
 // inner one (wide characters cut by the region edge show as blanks) and the outer cursor must be
 // at the inner cursor (shown) or hidden.
 func specialTTYMirror(c *specialCtx) {
-	prof := &profile{name: "C11", weights: withWeights(map[string]int{"sgr": 14, "textwide": 15, "goto": 14, "scroll": 8, "altscreen": 2, "mode": 4}),
+	prof := &profile{name: "C11", weights: withWeights(map[string]int{"sgr": 14, "textwide": 15, "goto": 14, "scroll": 8, "altscreen": 2, "mode": 4, "erase": 10}),
 		minLen: 4, maxLen: 30, grid: 0, chunks: []int{0}}
 	master := newPrng(uint64(c.seed) + 5)
 	seeds := make([]uint64, c.n)
@@ -225,6 +226,22 @@ func specialTTYMirror(c *specialCtx) {
 		r := newPrng(seeds[i])
 		cs := genCase(prof, r)
 		cs.Items = filterItems(cs.Items, func(it Item) bool { return it.Kind == "in" })
+		// every fourth case in grapheme mode, with combining marks that arrive in a read of their
+		// own (they join the character left of the cursor, which may be a wide one)
+		gmode := i%4 == 3
+		tmode := te.TextReadModeRune
+		if gmode {
+			tmode = te.TextReadModeGrapheme
+			var items []Item
+			for _, it := range cs.Items {
+				items = append(items, it)
+				if (it.Class == "textwide" || it.Class == "text") && r.chance(1, 2) {
+					items = append(items, in("mark", []byte(pick(r, []string{"\u0301", "\u0308", "\u0323\u0301"}))))
+				}
+			}
+			cs.Items = items
+			cs.Mode = 1
+		}
 		w, h := cs.W, cs.H
 		// region inside the screen (sometimes the whole screen, sometimes cutting columns)
 		rx, ry := r.intn(w), r.intn(h)
@@ -234,7 +251,7 @@ func specialTTYMirror(c *specialCtx) {
 		}
 		region := te.Region{X: rx, Y: ry, X2: rx2, Y2: ry2}
 
-		outer, _ := newImpl(0, false, w, h)
+		outer, _ := newImpl(cs.Mode, false, w, h)
 		var out bytes.Buffer
 		tty := te.NewTTYFrontend(nil, &out)
 		be := &scriptBackend{}
@@ -243,10 +260,10 @@ func specialTTYMirror(c *specialCtx) {
 		if i%3 == 1 {
 			// the mirror is installed on a terminal that already exists (SetFrontend): both
 			// buffers must talk to it from then on
-			vt = te.VerifNew(&te.EmptyFrontend{}, be, te.TextReadModeRune, false)
+			vt = te.VerifNew(&te.EmptyFrontend{}, be, tmode, false)
 			vt.Terminal().SetFrontend(fwd)
 		} else {
-			vt = te.VerifNew(fwd, be, te.TextReadModeRune, false)
+			vt = te.VerifNew(fwd, be, tmode, false)
 		}
 		inner := vt.Terminal()
 		tty.SetTerminal(inner)
@@ -281,6 +298,19 @@ func specialTTYMirror(c *specialCtx) {
 			si := &snapI.Screens[act]
 			snapO := outer.vt.Snap()
 			so := &snapO.Screens[0]
+			if gmode {
+				// a combining mark that found no character to join has a cell of its own on the
+				// inner screen (the zero-width-format-char corner recorded for C02/C03/C08); sent to
+				// the outer terminal it joins the cell to its left: not the mirror's business
+				for y := range si.Rows {
+					for _, cl := range si.Rows[y].Cells {
+						if fr, _ := utf8.DecodeRuneInString(cl.Text); !cl.Cont && unicode.Is(unicode.Mn, fr) {
+							c.tally("grapheme-case-left-at-a-free-standing-mark")
+							return false
+						}
+					}
+				}
+			}
 			for y := ry; y < ry2; y++ {
 				ci := cellsOfVerif(si.Rows[y].Cells)
 				co := cellsOfVerif(so.Rows[y].Cells)
@@ -754,12 +784,16 @@ func specialStreams(c *specialCtx) {
 		if r.chance(1, 3) {
 			failAt = 1 + r.intn(6)
 		}
-		be.written, be.writeCalls, be.writeSizes, be.writeErrAt = nil, 0, ws, failAt
+		progress := 0
+		if failAt > 0 && r.chance(1, 2) {
+			progress = pick(r, []int{1, 2, 5, 1000})
+		}
+		be.written, be.writeCalls, be.writeSizes, be.writeErrAt, be.writeErrProgress = nil, 0, ws, failAt, progress
 		if ws == nil {
 			be.writeSizes = []int{}
 		}
 		n, werr := im.term.Write(msg)
-		wantN, wantErr, wantDel := writeAllSpec(msg, ws, failAt)
+		wantN, wantErr, wantDel := writeAllSpec(msg, ws, failAt, progress)
 		gotErr := "nil"
 		if werr != nil {
 			gotErr = werr.Error()
@@ -769,11 +803,36 @@ func specialStreams(c *specialCtx) {
 				map[string]any{"len": len(msg), "sizes": ws, "failAt": failAt})
 		}
 		// the model agrees with the specification used here
-		ans := d.ask(fmt.Sprintf("write %s %d %s", hexOrDash(msg), failAt, intsOrDash(ws)))
-		if want := fmt.Sprintf("%d %s %s", wantN, wantErr, hexOrDash(wantDel)); ans != want {
-			c.violation("write-model", fmt.Sprintf("model says %q, specification %q", ans, want), nil)
+		if progress == 0 {
+			ans := d.ask(fmt.Sprintf("write %s %d %s", hexOrDash(msg), failAt, intsOrDash(ws)))
+			if want := fmt.Sprintf("%d %s %s", wantN, wantErr, hexOrDash(wantDel)); ans != want {
+				c.violation("write-model", fmt.Sprintf("model says %q, specification %q", ans, want), nil)
+			}
 		}
-		be.writeSizes, be.writeErrAt = nil, 0
+		// the richer script of `terminalWriteP`: a failing call may have accepted bytes
+		{
+			var calls []string
+			for k := 0; k < len(ws) || k < failAt; k++ {
+				sz := 1000000000
+				if k < len(ws) {
+					sz = ws[k]
+				}
+				if k+1 == failAt {
+					calls = append(calls, fmt.Sprintf("%d!", progress))
+					break
+				}
+				calls = append(calls, fmt.Sprint(sz))
+			}
+			cs := strings.Join(calls, ",")
+			if cs == "" {
+				cs = "-"
+			}
+			ans := d.ask(fmt.Sprintf("writep %s %s", hexOrDash(msg), cs))
+			if want := fmt.Sprintf("%d %s %s", wantN, wantErr, hexOrDash(wantDel)); ans != want {
+				c.violation("write-model", fmt.Sprintf("model (writep %s) says %q, specification %q", cs, ans, want), nil)
+			}
+		}
+		be.writeSizes, be.writeErrAt, be.writeErrProgress = nil, 0, 0
 	})
 	// the token reader's buffer (compaction, doubling) against the model's RBuf
 	c.parallel(c.n/10+8, func(i int, d *driver) {
@@ -832,14 +891,19 @@ func intsOrDash(xs []int) string {
 
 // writeAllSpec: the contract of Terminal.Write over a backend accepting sizes[k] bytes at call k
 // (everything once the script is exhausted), failing at call failAt (1-based, 0 = never).
-func writeAllSpec(b []byte, sizes []int, failAt int) (int, string, []byte) {
+func writeAllSpec(b []byte, sizes []int, failAt, progress int) (int, string, []byte) {
 	total := 0
 	var delivered []byte
 	call := 0
 	for len(b) > 0 {
 		call++
 		if failAt > 0 && call == failAt {
-			return total, errInjected.Error(), delivered
+			// the failing call may have accepted bytes: they count
+			n := progress
+			if n > len(b) {
+				n = len(b)
+			}
+			return total + n, errInjected.Error(), append(delivered, b[:n]...)
 		}
 		n := len(b)
 		if call-1 < len(sizes) && sizes[call-1] < n {
@@ -1503,7 +1567,8 @@ func specialResizeIdle(c *specialCtx) {
 					}
 					if r.chance(1, 3) {
 						// the first part of a sequence; the Resize; the rest
-						seq := pick(r, []string{"\x1b[7G", "\x1b[3d", "\x1b[r", "\x1b[2r", "\x1b[K", "\x1b[5;3H", "\x1b[2J", "\x1b[3C", "\x1b[4B", "\x1b[1;2r", "\x1b[6n", "\x1b[2X"})
+						seq := pick(r, []string{"\x1b[7G", "\x1b[3d", "\x1b[r", "\x1b[2r", "\x1b[K", "\x1b[5;3H", "\x1b[2J", "\x1b[3C", "\x1b[4B", "\x1b[1;2r", "\x1b[6n", "\x1b[2X",
+							"\x1b[r", "\x1b[3r", "\x1b[1X", "\x1b[4X", "\x1b[1P", "\x1b[3P", "\x1b[1K", "\x1b[J", "\x1b[1J", "\x1b[2L", "\x1b[1M", "\x1b[2S", "\x1b[T", "\x1b[2@", "\x1b[9C", "\x1b[9B", "\x1b[H"})
 						cut := 1 + r.intn(len(seq)-1)
 						items = append(items, Item{Kind: "in", Hex: hex.EncodeToString([]byte(seq[:cut])), Class: "split-head"}, it,
 							Item{Kind: "in", Hex: hex.EncodeToString([]byte(seq[cut:])), Class: "split-tail"})
@@ -1572,6 +1637,28 @@ func specialResizeIdle(c *specialCtx) {
 		var hist []string
 		modelRows := map[string]string{}
 		headPending := false // the implementation has read the first part of a sequence the model takes whole
+		// which property reports a difference: C18 every one (each case is a history of resizes);
+		// C15 those seen right after a sequence whose handler waited, lock released, while the
+		// Resize went through; C03-C06 those seen after a step of their own class
+		ownsStep := func(mo modelObs, splitTail bool) bool {
+			cl := classesOf(strings.Join(mo.tags, ","))
+			switch c.prop {
+			case "C18":
+				return true
+			case "C15":
+				return splitTail
+			case "C03":
+				return cl["text"]
+			case "C04":
+				return cl["motion"]
+			case "C05":
+				return cl["erase"]
+			case "C06":
+				return cl["scroll"]
+			}
+			return true
+		}
+		splitTail := false
 		check := func(mo modelObs, what string) bool {
 			for k, v := range mo.rows {
 				modelRows[k] = v
@@ -1598,6 +1685,10 @@ func specialResizeIdle(c *specialCtx) {
 				}
 			}
 			if len(diffs) > 0 {
+				if !ownsStep(mo, splitTail) {
+					c.tally("cases-ended-at-a-difference-of-another-property")
+					return false
+				}
 				c.violation("resize-while-waiting", fmt.Sprintf("history %v, after %s: %s", hist, what, truncate(strings.Join(diffs, "; "), 900)), payload)
 				return false
 			}
@@ -1626,6 +1717,7 @@ func specialResizeIdle(c *specialCtx) {
 				if len(mo.rows) > 0 {
 					modelRows = map[string]string{}
 				}
+				splitTail = false
 				ok = check(mo, hist[len(hist)-1])
 			case "in":
 				b := it.bytes()
@@ -1651,6 +1743,7 @@ func specialResizeIdle(c *specialCtx) {
 					continue
 				}
 				headPending = false
+				splitTail = it.Class == "split-tail"
 				consumed := int(be.delivered.Load()) - vt.Buffered()
 				mo, err := d.cmdBlock(fmt.Sprintf("adv %d", consumed))
 				if err != nil {
